@@ -20,7 +20,9 @@ RULE = ('(1) Hypothesis draws a well-formed module (all clause kinds, SMIv2 or S
         'option and random subsets; supportIndex only together with supportSmiV1Keywords); non-trivial when '
         'D != D\' and the module has >= 4 clause kinds. (2) for a drawn option the documented breakage is applied '
         'at every applicable site of the module, one site per evaluation (each (module, option, site) is distinct '
-        'and non-trivial). (3) unknown option names. Distinct = hash of text + option sets.')
+        'and non-trivial). (3) unknown option names, 1-3 at a time. (4) grammar-aware mutants of legal texts under D <= D\': '
+        'non-trivial when the smaller dialect accepts the mutant and D != D\'. Options are named in drawn order. '
+        'Distinct = hash of text + option sets.')
 ASSUMPTIONS = [
     'texts never use MAX or NetworkAddress as plain identifiers (the words the SMIv1 keyword set reserves)',
     'a lone supportIndex cannot be built (the grammar it adds needs the NetworkAddress token) and is not a case',
